@@ -191,7 +191,7 @@ def table(extends, expr, defs='', name='Gen', timeout=600, wd=None, heap='4g'):
     wd = wd or workdir()
     mod = 'Gen_' + name
     out = os.path.join(wd, mod + '.ndjson')
-    text = ('---- MODULE %s ----\nEXTENDS %s, Json, IOUtils\n%s\n'
+    text = ('---- MODULE %s ----\nEXTENDS %s, Json, IOUtils, SequencesExt, FiniteSetsExt, TLC\n%s\n'
             'GenRows == %s\nASSUME ndJsonSerialize(IOEnv.OUT, SetToSeq(GenRows))\n'
             'VARIABLE gen_v\nGenInit == gen_v = 0\nGenNext == UNCHANGED gen_v\n====\n') % (mod, extends, defs, expr)
     with open(os.path.join(wd, mod + '.tla'), 'w') as f:
